@@ -1200,6 +1200,9 @@ class Interp:
                     self.loop_counters[-1] = saved_counter
                 n += 1
                 if n > limit:
+                    if self.hooks.get("unroll_exceed") == "end":
+                        self.ctx.notes.append(f"bounded: loop {lname} unrolled {limit} times")
+                        raise PathEnd(f"loop {lname}: unrolling bound {limit} reached (bounded exploration)")
                     raise Unsupported(f"loop {lname} has no invariant and did not terminate within {limit} concrete iterations")
                 try:
                     self.exec_block(s.body, env, qual)
